@@ -7,7 +7,7 @@ SPEC = {
     "header": "From Coq Require Import ZArith List Bool.\nFrom Sky Require Import Base.Uint Model.Crash.\nImport ListNotations.\nOpen Scope Z_scope.",
     "corr": "C08_corr.v",
     "prop": "C08_prop.v",
-    "groups": {"crash": ("mism_crash", "pf_crash"), "abs": ("mism_abs", None)},
+    "groups": {"crash": ("mism_crash", "pf_crash"), "abs": ("mism_abs", None), "lock": (None, "pf_lock")},
     "side_keys": ["blocks", "commit_boundaries"],
     "trusted_base": [
         "MODELLED, NOT VERIFIED: boltdb's page layer (copy-on-write: hypothesis `cow`; alternating checksummed meta pages: `pre_ok`; dirty pages written in ascending id before the meta page), the OS file system (ordered writes; torn writes only in the last page written)",
